@@ -6,6 +6,7 @@ import (
 	"go/token"
 	"go/types"
 	"sort"
+	"strconv"
 	"strings"
 
 	"golang.org/x/tools/go/ssa"
@@ -943,6 +944,32 @@ func classifyMapRange(p *Prog, fi *FuncInfo, rs *ast.RangeStmt) (bool, string) {
 		}
 	}
 	check(rs.Body, "")
+	// a reflective store keyed by the loop key (FieldByName(key).Set…) can reach every field of the struct: an explicit
+	// store to one of its fields under another key's constant is a second writer of that field — the entry visited
+	// last wins
+	reflectByKey := false
+	ast.Inspect(rs.Body, func(n ast.Node) bool {
+		if call, ok := n.(*ast.CallExpr); ok {
+			if se, ok := call.Fun.(*ast.SelectorExpr); ok && se.Sel.Name == "FieldByName" && len(call.Args) == 1 && mentions(call.Args[0], K) {
+				reflectByKey = true
+			}
+		}
+		return true
+	})
+	if reflectByKey {
+		for tgt, cs := range guardTargets {
+			i := strings.LastIndex(tgt, ".")
+			if i < 0 {
+				continue
+			}
+			fld := tgt[i+1:]
+			for c := range cs {
+				if uq, err := strconv.Unquote(c); err == nil && uq != fld {
+					problems = append(problems, fmt.Sprintf("field %s is stored under the key %s and, through the reflective store keyed by the loop key, under the key %q: when both keys are given the entry visited last wins", tgt, c, fld))
+				}
+			}
+		}
+	}
 	for tgt, cs := range guardTargets {
 		if len(cs) > 1 {
 			var l []string
